@@ -37,17 +37,22 @@
 /*============================================================================*/
 
 void bn_mod_inv(bn_t c, const bn_t a, const bn_t b) {
-	bn_t t, u;
+	bn_t t, u, v;
 
 	bn_null(t);
 	bn_null(u);
+	bn_null(v);
 
 	RLC_TRY {
 		bn_new(t);
 		bn_new(u);
+		bn_new(v);
 
 		bn_copy(u, b);
-		bn_gcd_ext(t, c, NULL, a, b);
+		/* Invert the least non-negative residue, so that the sign of a is
+		 * honoured and c can be the same variable as a. */
+		bn_mod(v, a, b);
+		bn_gcd_ext(t, c, NULL, v, b);
 
 		if (bn_sign(c) == RLC_NEG) {
 			bn_add(c, c, u);
@@ -61,6 +66,7 @@ void bn_mod_inv(bn_t c, const bn_t a, const bn_t b) {
 	} RLC_FINALLY {
 		bn_free(t);
 		bn_free(u);
+		bn_free(v);
 	}
 }
 
